@@ -1001,6 +1001,85 @@ func (e *c37Env) runAll() {
 	}
 }
 
+// c37PauseReader delivers data[:cut], then reports a temporary end of data (io.EOF or (0, nil)) until resume()
+// is called, then delivers the rest and a final io.EOF: a file that is still being written, a pipe, a read
+// deadline. reads counts the calls while paused so that a reader that spins is cut off.
+type c37PauseReader struct {
+	data    []byte
+	pos     int
+	cut     int
+	zeroNil bool
+	resumed bool
+	reads   int
+}
+
+func (r *c37PauseReader) Read(p []byte) (int, error) {
+	limit := len(r.data)
+	if !r.resumed {
+		limit = r.cut
+	}
+	if r.pos >= limit {
+		r.reads++
+		if r.resumed || !r.zeroNil || r.reads > 64 {
+			return 0, io.EOF
+		}
+
+		return 0, nil
+	}
+	n := copy(p, r.data[r.pos:limit])
+	r.pos += n
+
+	return n, nil
+}
+
+// c37PauseResume: the Annex-B readers on a stream that pauses at EVERY offset (both kinds of pause): the unit
+// calls made until the reader reports the end, the stream resumed, the unit calls continued. No verdict on
+// WHAT comes out (a reader may treat the pause as the end): only that nothing panics and every call returns.
+func c37PauseResume(c *vkit.Check, seeds []*c37Seed) {
+	for _, s := range seeds {
+		if s.kind != "h264" && s.kind != "h265" {
+			continue
+		}
+		for _, sei := range []bool{false, true} {
+			for _, zeroNil := range []bool{false, true} {
+				for cut := 0; cut <= len(s.data); cut++ {
+					c.Eval()
+					pr := &c37PauseReader{data: s.data, cut: cut, zeroNil: zeroNil}
+					what := fmt.Sprintf("%s include-sei=%v pause=%s at offset %d of %d", s.kind, sei, map[bool]string{true: "(0,nil)", false: "io.EOF"}[zeroNil], cut, len(s.data))
+					func() {
+						defer func() {
+							if r := recover(); r != nil {
+								c.Violation("panic|"+vkit.PanicSite()+"|pause-resume|"+s.kind, fmt.Sprintf("panic after a temporary end of data (%s): %v", what, r),
+									map[string]any{"seed": s.name, "cut": cut, "zero_nil": zeroNil, "include_sei": sei})
+							}
+						}()
+						next := func() bool { return false }
+						if s.kind == "h264" {
+							rd, err := h264reader.NewReaderWithOptions(pr, h264reader.WithIncludeSEI(sei))
+							if err != nil {
+								return
+							}
+							next = func() bool { n, e := rd.NextNAL(); return e == nil && n != nil }
+						} else {
+							rd, err := h265reader.NewReaderWithOptions(pr, h265reader.WithIncludeSEI(sei))
+							if err != nil {
+								return
+							}
+							next = func() bool { n, e := rd.NextNAL(); return e == nil && n != nil }
+						}
+						for k := 0; k < 64 && next(); k++ {
+						}
+						pr.resumed = true
+						for k := 0; k < 64 && next(); k++ {
+						}
+					}()
+				}
+			}
+		}
+		c.Distinct("pause-resume|" + s.kind)
+	}
+}
+
 func TestVerifC37(t *testing.T) { //nolint:cyclop
 	c := vkit.New("C37", "exploration")
 	defer c.Finish(t)
@@ -1010,6 +1089,7 @@ func TestVerifC37(t *testing.T) { //nolint:cyclop
 		"every truncation offset 0..len; every single-byte substitution by {00,01,7f,80,ff} at every offset and by all 256 values at offsets < 64 and at every length/size/count/start-code byte; every multi-byte length field overwritten as a whole little-endian 32-bit value by 2^32-1-d for every d up to the input length + 16 (all values whose sum with an offset wraps back into the input) and by 2^31-1-d, 2^31+d for d < 16; " +
 		"thorough: every pair of substitutions by the 5 values over the header region (offsets < 64 plus the field bytes, <= 128 offsets), and all 65536 values of the low 16 bits of every multi-byte length field " +
 		"(IVF header/frame sizes, Ogg segment count + first lacing value, OpusTags vendor length and comment count, rtpdump record length and packet length). " +
+		"Annex-B readers also on a stream that pauses at every offset (temporary io.EOF or (0,nil)) and resumes: unit calls until the reader reports the end, then again after the resume. " +
 		"Non-trivial: the reader accepted the header and made >= 1 unit call; distinct = (reader, stream shape, operator, calls made, final error)")
 	c.Assume("IVF inputs whose frame-size field forces an allocation above the cap (16 MiB; 128 MiB for truncations and single substitutions in the thorough tier) are not executed: make([]byte, uint32) is a legitimate allocation, not a crash, and costs seconds per GiB here; their count is reported as skipped_large_alloc")
 	c.Assume("no-return hangs are detected by a liveness guard (60 s per 64-case chunk, then 120 s for the case alone); everything else is decided without a clock")
@@ -1055,6 +1135,7 @@ func TestVerifC37(t *testing.T) { //nolint:cyclop
 	if !c.Quick() {
 		modes = append(modes, c37DataErr)
 	}
+	c37PauseResume(c, seeds)
 	seedInfo := map[string]any{}
 	for _, s := range seeds {
 		seedInfo[s.name] = map[string]int{"bytes": len(s.data), "field_bytes": len(s.fields), "single_substitutions": len(s.sub1), "pair_region_offsets": len(s.hdr)}
